@@ -15,7 +15,7 @@ def dense_samples(col, times):
 class C17(Check):
     PID = 'C17'
     RULE = ('every operator x the four monitor kinds (with pastify for bounded-future formulas online) x degenerate data shapes: one-sample traces, a declared '
-            'and supplied but unused variable, a declared but never supplied unused variable, inputs listed in shuffled order, object-typed variables read and written through fields (also two fields of one object) with several update() calls, bounds of 1e19 ... 1e400 (a value or an RTAMTException); then seeded random formulas of '
+            'and supplied but unused variable, a declared but never supplied unused variable, inputs listed in shuffled order, object-typed variables read and written through fields (also two fields of one object) with several update() calls, bounds of 1e19 ... 1e400 (a value or an RTAMTException), dense online update() calls that leave a variable out (the first call of a new object, and the first call after an update and a reset()); then seeded random formulas of '
             'the full grammar; 30% of the cases with one of the four IA-STL semantics and a random input/output assignment; expected outcome class from the model (Support.v): Ok for supported constructs, RTAMTException (at parse/pastify or at the '
             'first evaluation) for unsupported ones, never another exception and never a value for an unsupported construct; '
             'non-trivial = formula with a temporal operator; distinct by (formula, monitor kind, data shape)')
